@@ -225,7 +225,7 @@ func shapeTags(p *ReqPlan) string {
 	var tags []string
 	for _, t := range p.Tags {
 		switch t {
-		case "doubled-slash", "no-leading-slash", "root", "trailing-slash", "param", "plain":
+		case "doubled-slash", "no-leading-slash", "root", "trailing-slash", "param", "hyphen-param", "plain":
 			tags = append(tags, t)
 		}
 	}
@@ -255,6 +255,15 @@ type judge struct {
 	tag    string
 	out    []Violation
 	stats  *Stats
+	// broken[engine][route]: the engine does not serve this annotated route at all (reported once under
+	// C02); requests derived from it are no longer executed on that engine, so one root cause does not
+	// cascade into the other oracles
+	broken map[string]map[int]bool
+}
+
+func (j *judge) isBroken(engine string, p *ReqPlan) bool {
+	b := j.broken[engine]
+	return b != nil && (b[p.BaseRoute] || (p.Expect.Route >= 0 && b[p.Expect.Route]))
 }
 
 func (j *judge) add(prop, sig, class, msg string, engine string, group []*ReqPlan, focus *ReqPlan, seed uint64, outs []Outcome) {
@@ -301,6 +310,15 @@ func (j *judge) judgePlan(plan *ReqPlan, o Outcome, group []*ReqPlan, seed uint6
 				j.add("C02", fmt.Sprintf("C02|%s|invoked-twice|%s", o.Engine, shapeTags(plan)), "invoked-twice",
 					fmt.Sprintf("%s %s invoked %d controller methods", plan.Verb, plan.URL, len(o.Calls)), o.Engine, group, plan, seed, outs)
 			}
+			if ex.Outcome == "invoked" && o.Class == "not-served" && plan.Class == "valid" && len(group) == 1 {
+				if j.broken == nil {
+					j.broken = map[string]map[int]bool{}
+				}
+				if j.broken[o.Engine] == nil {
+					j.broken[o.Engine] = map[int]bool{}
+				}
+				j.broken[o.Engine][ex.Route] = true
+			}
 			if ex.Outcome == "invoked" && o.Class == "not-served" {
 				j.add("C02", fmt.Sprintf("C02|%s|not-served|%s", o.Engine, shapeTags(plan)), "not-served",
 					fmt.Sprintf("%s %s addresses annotated route %s (template %s) but the router does not serve it (status %d)", plan.Verb, plan.URL, ex.OpID, j.routes[ex.Route].Path, o.Status), o.Engine, group, plan, seed, outs)
@@ -311,6 +329,17 @@ func (j *judge) judgePlan(plan *ReqPlan, o Outcome, group []*ReqPlan, seed uint6
 		return
 	}
 	rt := j.routes[ex.Route]
+	// C03 is judged against the route whose method actually ran (if one did): the gate that matters is
+	// that method's. For framework-policy shapes without an invocation the addressed route is not known.
+	if len(o.Calls) > 0 {
+		for ri := range j.routes {
+			if j.proj.OpPrefix+j.routes[ri].OpID == o.Calls[0].Op {
+				rt = j.routes[ri]
+			}
+		}
+	} else if ex.Policy != "" {
+		return
+	}
 	// ---------------- C03: online ordering invariant over the event history
 	alts := altKeys(rt)
 	approved := false
@@ -334,6 +363,9 @@ func (j *judge) judgePlan(plan *ReqPlan, o Outcome, group []*ReqPlan, seed uint6
 		}
 	}
 	if ex.Outcome == "refused" {
+		if o.Class == "not-served" {
+			return // the route is not served at all: C02's business
+		}
 		if o.Class != "refused" {
 			j.add("C03", fmt.Sprintf("C03|%s|refused-but-%s", o.Engine, o.Class), "refusal-not-honoured",
 				fmt.Sprintf("every alternative of %s was refused but the outcome is %s (status %d)", ex.OpID, o.Class, o.Status), o.Engine, group, plan, seed, outs)
@@ -460,6 +492,9 @@ func (j *judge) judgeReplicas(plan *ReqPlan, outs map[string]Outcome, group []*R
 	}
 	var engines []string
 	for e := range outs {
+		if j.isBroken(e, plan) {
+			continue // this engine does not serve the route at all: reported once under C02
+		}
 		engines = append(engines, e)
 	}
 	sort.Strings(engines)
@@ -529,6 +564,7 @@ type Stats struct {
 	Faults         map[string]int `json:"fault_kinds_fired"`
 	Outcomes       map[string]int `json:"outcomes"`
 	Probes         map[string]int `json:"probes"`
+	EventKinds     map[string]int `json:"event_kinds"`
 	Distinct       map[string]bool `json:"-"`
 	DistinctN      int            `json:"distinct_nontrivial"`
 	Interleavings  map[string]bool `json:"-"`
@@ -539,7 +575,7 @@ type Stats struct {
 }
 
 func newStats() *Stats {
-	return &Stats{Classes: map[string]int{}, Faults: map[string]int{}, Outcomes: map[string]int{}, Probes: map[string]int{}, Distinct: map[string]bool{}, Interleavings: map[string]bool{}}
+	return &Stats{Classes: map[string]int{}, Faults: map[string]int{}, Outcomes: map[string]int{}, Probes: map[string]int{}, EventKinds: map[string]int{}, Distinct: map[string]bool{}, Interleavings: map[string]bool{}}
 }
 
 // execGroup runs a group of plans concurrently on every engine node and judges them.
@@ -551,6 +587,16 @@ func (j *judge) execGroup(nodes map[string]*node, group []*ReqPlan, seed uint64)
 	for _, engine := range EngineNames {
 		n := nodes[engine]
 		if n == nil || n.regErr != "" {
+			continue
+		}
+		skip := false
+		for _, p := range group {
+			if j.isBroken(engine, p) {
+				skip = true
+			}
+		}
+		if skip {
+			j.stats.Probes["skipped: engine does not serve the route at all"]++
 			continue
 		}
 		tasks := make([]*Task, len(group))
@@ -574,6 +620,9 @@ func (j *judge) execGroup(nodes map[string]*node, group []*ReqPlan, seed uint64)
 			perPlan[i][engine] = o
 			j.stats.Requests++
 			j.stats.Outcomes[o.Class]++
+			for _, ev := range o.Events {
+				j.stats.EventKinds[ev.Kind]++
+			}
 			j.judgePlan(group[i], o, group, seed)
 		}
 	}
